@@ -557,8 +557,20 @@ impl AutosarModel {
             locked_model.files.swap_remove(pos);
             if locked_model.files.is_empty() {
                 // no other files remain in the model, so it reverts to being empty
-                locked_model.root_element.0.write().content.clear();
-                locked_model.root_element.set_file_membership(HashSet::new());
+                let root_element = locked_model.root_element.clone();
+                drop(locked_model);
+                // unlink all removed elements, so that they become invalid like any other removed element
+                let removed_content = std::mem::take(&mut root_element.0.write().content);
+                for item in removed_content {
+                    if let ElementContent::Element(sub_element) = item {
+                        sub_element
+                            .0
+                            .write()
+                            .remove_internal(sub_element.downgrade(), self, std::borrow::Cow::from(""));
+                    }
+                }
+                root_element.set_file_membership(HashSet::new());
+                let mut locked_model = self.0.write();
                 locked_model.identifiables.clear();
                 locked_model.reference_origins.clear();
             } else {
